@@ -176,9 +176,11 @@ let run_sqlhist u line =
          | ["len"] -> Some SLen
          | ["setmax"; n] -> Some (SSetMax (nat_of_int (int_of_string n)))
          | ["reopen"] -> Some SReopen
+         | ["save"] | ["append"] -> Some SLen            (* save / append to the database's own path change nothing: run as a len whose answer is not printed *)
          | ("search" :: _) | ("sw" :: _) -> None        (* full-text search: not modelled *)
          | _ -> failwith ("bad sqlhist op: " ^ o) in
        let parsed = List.map parse ops in
+       let quiet = List.map (fun o -> match words o with ["save"] | ["append"] -> true | _ -> false) ops in
        let (_, outs) = sql_run u h (List.filter_map (fun x -> x) parsed) in
        let fmt = function
          | SoBool b -> if b then "b1" else "b0"
@@ -186,12 +188,12 @@ let run_sqlhist u line =
          | SoGet (Some (i, e)) -> Printf.sprintf "g:%d,%s" (int_of_nat i) (fmt_str e)
          | SoNat n -> Printf.sprintf "n:%d" (int_of_nat n)
          | SoUnit -> "u" in
-       let rec merge ps os = match ps, os with
-         | [], _ -> []
-         | None :: pr, _ -> "s:?" :: merge pr os
-         | Some _ :: pr, o :: orest -> fmt o :: merge pr orest
-         | Some _ :: _, [] -> failwith "sqlhist: output count" in
-       String.concat ";" (merge parsed outs)
+       let rec merge ps qs os = match ps, qs, os with
+         | [], _, _ -> []
+         | None :: pr, _ :: qr, _ -> "s:?" :: merge pr qr os
+         | Some _ :: pr, q :: qr, o :: orest -> (if q then "u" else fmt o) :: merge pr qr orest
+         | _ -> failwith "sqlhist: output count" in
+       String.concat ";" (merge parsed quiet outs)
      | _ -> failwith "bad sqlhist head")
 
 (* ---------- stream: fhist (C10/C11/C12) ---------- *)
